@@ -44,7 +44,7 @@ def _new_findings(prop, root):
     errs = []
     for r in mod.RULES:
         try:
-            res = r(ctx)
+            res = core.run_rule(r, ctx)
         except AnalysisError as e:
             errs.append(e)
             continue
